@@ -170,6 +170,7 @@ On(cls, ns, nf, r, c) ==
     [] cls = "gap"     -> r = 0 \/ r = ns - 1            \* occupied rows with empty rows between them
     [] cls = "dots"    -> r % 2 = 0 /\ c % 2 = 0         \* isolated pixels: one provisional label each
     [] cls = "corners" -> (r = 0 \/ r = ns - 1) /\ (c = 0 \/ c = nf - 1)
+FewPixels == {"empty", "tl", "tr", "bl", "br", "ctr", "corners", "col0", "colN"}
 \* pixel values: data = Val on the pixels of the content, 0 elsewhere
 Val(r, c) == 1 + ((3 * r + 5 * c) % 7)
 \* thresholds / cuts relative to the data 0, 1..7
@@ -289,6 +290,8 @@ PickShape(s) == /\ pc = "shape" /\ s[1] >= MinR(d.k) /\ s[2] >= MinC(d.k)
 PickBigShape(s) == /\ pc = "shape" /\ Big(d.k)
                    /\ d' = [d EXCEPT !.ns = s[1], !.nf = s[2], !.big = TRUE] /\ pc' = "c1"
 PickContent(c) == /\ pc = "c1" /\ (d.big => c \in BigContents)
+                  \* sparse_smooth scans three whole rows per pixel: on very wide images only few-pixel contents
+                  /\ (d.k = "sparse_smooth" /\ d.nf > 2 * Chunk => c \in FewPixels)
                   /\ (d.k = "splat" => c = "empty")                        \* rgba is output only
                   /\ d' = [d EXCEPT !.c1 = c] /\ pc' = "c2"
 PickContent2(c) == /\ pc = "c2" /\ c \in C2s(d.k) /\ d' = [d EXCEPT !.c2 = c]
@@ -392,6 +395,13 @@ WellFormed(x) ==
   /\ k = "closest_vec" => x.m >= 1
   /\ k = "verify_rounding" => x.n \in 0..1000000
 
+\* `int` arithmetic of a kernel on coordinates that the interface (uint16 coordinates) does not rule out:
+\* sparse_smooth squares a column difference in `int` (sparse_image.c:493), add_pixel (blobproperties) forms
+\* f * f, s * s, s * f in `int` (blobs.c:108-111); 46340^2 < 2^31 <= 46341^2.
+\* Not a precondition (nothing documents it): emitted with the descriptor so that a report can be attributed.
+IntFits(x) == /\ x.k = "sparse_smooth" => x.nf - 1 <= 46340
+              /\ x.k = "blobproperties" => x.nf - 1 <= 46340 /\ x.ns - 1 <= 46340
+
 Finish == /\ pc = "finish"
           /\ WellFormed(d) = TRUE                \* ill-formed combinations of the choices are not calls
                                                  \* ("= TRUE": evaluated as a value, not expanded as an action)
@@ -483,7 +493,7 @@ MatVec(x) ==
     [] OTHER -> [none |-> 0]
 
 Emit == (pc = "done" /\ EmitOn) =>
-          PrintT("@@" \o ToJson([d |-> d,
+          PrintT("@@" \o ToJson([d |-> d, intfits |-> IntFits(d),
                                  mat |-> IF SmallImg(d) THEN MatImg(d) ELSE IF SmallVec(d) THEN MatVec(d) ELSE [none |-> 0]]))
 \* the interface table, once (initial state)
 EmitInterface == (pc = "kernel" /\ EmitOn) =>
